@@ -221,6 +221,8 @@ class DBusClientConnection (txdbus.protocol.BasicDBusProtocol):
 
         def add(k, v):
             if v is not None:
+                # an apostrophe inside a value is written as '\''
+                v = str(v).replace("'", "'\\''")
                 l.append(f"{k}='{v}'")
 
         add('type', mtype)
